@@ -3,6 +3,6 @@ CONSTANTS
   Threads = {1, 2}
   MaxCalls = 3
   Hint = FALSE
-INVARIANTS OnlyValidBuilt SameQuestionSameAnswer ElementsAgree AnsweredIffInRange FiniteNeverRejected ShapeOk BadBufferNeverOk
+INVARIANTS OnlyValidBuilt SameQuestionSameAnswer ElementsAgree AnsweredIffInRange FiniteNeverRejected ShapeOk BadBufferNeverOk KnotsReproduced PeriodicFunction
 PROPERTY Immutable
 CHECK_DEADLOCK FALSE
